@@ -19,6 +19,7 @@ type c04Step struct {
 	Burst   int   `json:"burst"`
 }
 type c04Case struct {
+	SMax  bool      `json:"lifetime_from_s_maxage"`
 	URI   string    `json:"uri"`
 	T     int64     `json:"T"`
 	Age   string    `json:"origin_age"`
@@ -41,6 +42,7 @@ func c04Gen(rnd *rand.Rand, i int) c04Case {
 			c.Age = strconv.FormatInt(t-1, 10)
 		}
 	}
+	c.SMax = rnd.Intn(3) == 0
 	l := ans{Kind: "cacheable", T: t, Age: c.Age}.lifetime()
 	n := 6 + rnd.Intn(10)
 	for j := 0; j < n; j++ {
@@ -63,7 +65,7 @@ type c04Target struct {
 }
 
 func c04RunCase(r *hx.Run, w *W, ps *plans, c c04Case, tg c04Target, rnd *rand.Rand) {
-	a := ans{Kind: "cacheable", T: c.T, Age: c.Age}
+	a := ans{Kind: "cacheable", T: c.T, Age: c.Age, SMax: c.SMax}
 	ps.set(c.URI, &plan{Seq: []ans{a}})
 	defer ps.del(c.URI)
 	m := &entryModel{}
@@ -187,16 +189,25 @@ func c04Directed(r *hx.Run, w *W, ps *plans, i int, t int64, refetch bool) {
 }
 
 // c04Concurrent: a ticker advances the clock while clients run; interval-sound verdicts
-func c04Concurrent(r *hx.Run, w *W, ps *plans, rnd *rand.Rand) {
+func c04Concurrent(r *hx.Run, w *W, ps *plans, rnd *rand.Rand, tickPerRead bool) {
 	keys := 6
 	ts := []int64{1, 2, 3, 5}
+	mode := "concurrent"
+	if tickPerRead {
+		// hostile clock: every single reading advances the clock, so any two readings inside one
+		// operation of pike (store time vs expiry, lookup vs age) disagree
+		ts = []int64{8, 15, 30, 60}
+		mode = "tick_per_read"
+		w.Clock.TickPerRead.Store(true)
+		defer w.Clock.TickPerRead.Store(false)
+	}
 	type keyInfo struct {
 		uri string
 		t   int64
 	}
 	var ks []keyInfo
 	for i := 0; i < keys; i++ {
-		k := keyInfo{fmt.Sprintf("/c04c/%d/%d", r.Seed, i), ts[i%len(ts)]}
+		k := keyInfo{fmt.Sprintf("/c04c/%s/%d/%d", mode, r.Seed, i), ts[i%len(ts)]}
 		ps.set(k.uri, &plan{Seq: []ans{{Kind: "cacheable", T: k.t}}})
 		ks = append(ks, k)
 	}
@@ -208,7 +219,9 @@ func c04Concurrent(r *hx.Run, w *W, ps *plans, rnd *rand.Rand) {
 		defer wgT.Done()
 		for !stop.Load() {
 			time.Sleep(time.Duration(300+rand.Intn(1200)) * time.Microsecond)
-			w.Clock.Advance(1)
+			if !tickPerRead {
+				w.Clock.Advance(1)
+			}
 		}
 	}()
 	type rec struct {
@@ -253,7 +266,7 @@ func c04Concurrent(r *hx.Run, w *W, ps *plans, rnd *rand.Rand) {
 		res := x.res
 		r.Eval(1)
 		if res.Err != nil || res.Status != 200 {
-			r.Violate("request_failed", map[string]string{"mode": "concurrent"}, "request failed under a ticking clock", res.Brief(), nil)
+			r.Violate("request_failed", map[string]string{"mode": mode}, "request failed under a ticking clock", res.Brief(), nil)
 			continue
 		}
 		if res.Label != "hit" {
@@ -262,7 +275,7 @@ func c04Concurrent(r *hx.Run, w *W, ps *plans, rnd *rand.Rand) {
 		hits++
 		f := w.Farm.ByID(res.FetchID)
 		if f == nil {
-			r.Violate("hit_of_unknown_fetch", map[string]string{"mode": "concurrent"}, "hit carries no known fetch id", res.Brief(), nil)
+			r.Violate("hit_of_unknown_fetch", map[string]string{"mode": mode}, "hit carries no known fetch id", res.Brief(), nil)
 			continue
 		}
 		hi, ok := createdHi[f.ID]
@@ -272,22 +285,25 @@ func c04Concurrent(r *hx.Run, w *W, ps *plans, rnd *rand.Rand) {
 		}
 		cs := map[string]interface{}{"uri": res.Req.URI, "T": x.t, "fetch_vstart": f.VStart, "created_at_most": hi}
 		if res.VCall-hi > x.t {
-			r.Violate("stale_served", map[string]string{"mode": "concurrent"}, fmt.Sprintf("hit at clock >= %d of a version created at clock <= %d with T=%d", res.VCall, hi, x.t), res.Brief(), cs)
+			r.Violate("stale_served", map[string]string{"mode": mode}, fmt.Sprintf("hit at clock >= %d of a version created at clock <= %d with T=%d", res.VCall, hi, x.t), res.Brief(), cs)
 		}
 		age := int64(res.Age)
 		if age < 0 {
 			age = 0
 		}
 		if age < res.VCall-hi || age > res.VRet-f.VStart {
-			r.Violate("age_not_true_age", map[string]string{"mode": "concurrent"}, fmt.Sprintf("Age=%d outside [%d,%d]", age, res.VCall-hi, res.VRet-f.VStart), res.Brief(), cs)
+			r.Violate("age_not_true_age", map[string]string{"mode": mode}, fmt.Sprintf("Age=%d outside [%d,%d]", age, res.VCall-hi, res.VRet-f.VStart), res.Brief(), cs)
 		}
 		if age > x.t {
-			r.Violate("age_exceeds_T", map[string]string{"mode": "concurrent_tick", "excess": fmt.Sprint(age - x.t)}, fmt.Sprintf("Age=%d > T=%d under a ticking clock", age, x.t), res.Brief(), cs)
+			r.Violate("age_exceeds_T", map[string]string{"mode": mode + "_tick", "excess": fmt.Sprint(age - x.t)}, fmt.Sprintf("Age=%d > T=%d under a ticking clock", age, x.t), res.Brief(), cs)
 		}
 	}
-	r.Add("concurrent_requests", int64(len(all)))
-	r.Add("concurrent_hits_judged", int64(hits))
-	r.Add("concurrent_epochs", int64(len(createdHi)))
+	r.Add(mode+"_requests", int64(len(all)))
+	r.Add(mode+"_hits_judged", int64(hits))
+	r.Add(mode+"_epochs", int64(len(createdHi)))
+	if hits > 0 && len(createdHi) > 1 {
+		r.Distinct("mode:" + mode)
+	}
 	for _, k := range ks {
 		ps.del(k.uri)
 	}
@@ -329,7 +345,9 @@ func c04(r *hx.Run) {
 		c04Directed(r, w, ps, i, []int64{1, 2, 5, 60}[i%4], i%2 == 1)
 	}
 	w.Farm.Trim()
-	c04Concurrent(r, w, ps, rnd)
+	c04Concurrent(r, w, ps, rnd, false)
+	w.Farm.Trim()
+	c04Concurrent(r, w, ps, rnd, true)
 }
 
 func init() { register("C04", "exploration", c04) }
